@@ -51,6 +51,7 @@ func variadicHelpersRejectEmpty(p *Program) bool {
 	}
 	return found
 }
+
 type bkey struct {
 	v  ssa.Value
 	b  *ssa.BasicBlock
@@ -111,10 +112,10 @@ func (a *boundAn) bounded(v ssa.Value, b *ssa.BasicBlock, extra []condFact, ub b
 	case *ssa.Const:
 		return !isBigConst(v)
 	case *ssa.Parameter:
-		if ub {
-			return a.assumeUB[v]
+		if ub && a.assumeUB[v] || !ub && a.assumeLB[v] {
+			return true
 		}
-		return a.assumeLB[v]
+		return a.boundedAtCallers(v, ub)
 	case *ssa.FreeVar:
 		return false
 	case *ssa.Call:
@@ -200,6 +201,29 @@ func (a *boundAn) bounded(v ssa.Value, b *ssa.BasicBlock, extra []condFact, ub b
 				(a.bounded(v.Y, b, nil, true) && a.bounded(v.Y, b, nil, false))
 		}
 		return false
+	case *ssa.Lookup:
+		// a counter kept in a local map (sizes[k]++): as bounded as everything ever stored in the map; the increments
+		// form a cycle through this very lookup, taken optimistically like a counting phi (the loops that drive them are
+		// bounded by E-BOUNDS-LOOP)
+		if mm, ok := v.X.(*ssa.MakeMap); ok && !v.CommaOk {
+			for _, ref := range *mm.Referrers() {
+				switch x := ref.(type) {
+				case *ssa.MapUpdate:
+					if x.Map != ssa.Value(mm) || !a.bounded(x.Value, x.Block(), nil, ub) {
+						return false
+					}
+				case *ssa.Lookup, *ssa.Range, *ssa.DebugRef:
+				case *ssa.Call:
+					if n := builtinName(&x.Call); n != "len" && n != "delete" && n != "clear" {
+						return false
+					}
+				default:
+					return false
+				}
+			}
+			return true
+		}
+		return false
 	case *ssa.Phi:
 		for i, e := range v.Edges {
 			p := v.Block().Preds[i]
@@ -224,6 +248,43 @@ func (a *boundAn) bounded(v ssa.Value, b *ssa.BasicBlock, extra []condFact, ub b
 		return true
 	}
 	return false
+}
+
+// boundedAtCallers: an integer parameter of an unexported function of the repository is bounded when the argument is
+// bounded at every one of the function's static call sites (a size hint handed to a constructor, a count handed to a
+// helper that was split off).
+func (a *boundAn) boundedAtCallers(prm *ssa.Parameter, ub bool) bool {
+	fn := prm.Parent()
+	if fn == nil || a.depth >= 3 || fn.Pkg == nil || !strings.HasPrefix(fn.Pkg.Pkg.Path(), modPath) {
+		return false
+	}
+	if bt, ok := prm.Type().Underlying().(*types.Basic); !ok || bt.Info()&types.IsInteger == 0 {
+		return false
+	}
+	if obj := fn.Object(); obj == nil || obj.Exported() {
+		return false
+	}
+	idx := -1
+	for i, q := range fn.Params {
+		if q == prm {
+			idx = i
+		}
+	}
+	sites := callSitesOf(fn)
+	if idx < 0 || len(sites) == 0 {
+		return false
+	}
+	for _, s := range sites {
+		args := s.Common().Args
+		if s.Common().IsInvoke() || idx >= len(args) || s.Parent() == fn {
+			return false
+		}
+		sub := &boundAn{busy: map[bkey]bool{}, variadicNonEmpty: a.variadicNonEmpty, assumeUB: map[*ssa.Parameter]bool{}, assumeLB: map[*ssa.Parameter]bool{}, depth: a.depth + 1}
+		if !sub.bounded(args[idx], s.Block(), nil, ub) {
+			return false
+		}
+	}
+	return true
 }
 
 // calleeResultBounded summarises a repository callee: result k is bounded when every return hands out a bounded value,
@@ -621,8 +682,30 @@ func rangesOverArguments(h *ssa.BasicBlock) bool {
 		if !ok || bin.Op != token.LSS {
 			continue
 		}
-		if c, ok := bin.Y.(*ssa.Call); ok && builtinName(&c.Call) == "len" && isFieldLoad(c.Call.Args[0], "Arguments") {
-			return true
+		if c, ok := bin.Y.(*ssa.Call); ok && builtinName(&c.Call) == "len" {
+			if isFieldLoad(c.Call.Args[0], "Arguments") {
+				return true
+			}
+			// the argument list handed, as it is, to a helper that was split off the dispatcher
+			if prm, ok := c.Call.Args[0].(*ssa.Parameter); ok {
+				fn := prm.Parent()
+				idx := -1
+				for i, q := range fn.Params {
+					if q == prm {
+						idx = i
+					}
+				}
+				sites := callSitesOf(fn)
+				all := idx >= 0 && len(sites) > 0
+				for _, s := range sites {
+					if s.Common().IsInvoke() || idx >= len(s.Common().Args) || !isFieldLoad(s.Common().Args[idx], "Arguments") {
+						all = false
+					}
+				}
+				if all {
+					return true
+				}
+			}
 		}
 	}
 	return false
